@@ -2,6 +2,7 @@
 Helper lemmas for the URL-encoding model (C02). Core Lean only.
 -/
 import WzVerif.Model.Urlencode
+import WzVerif.Lemmas.Utf8Facts
 namespace Wz.Urlencode
 open Wz
 
@@ -368,5 +369,52 @@ theorem parseQsl_urlencode_lemma {safe : Bytes} (hs : SafeOk safe) (items : List
       simp only [List.map_map, List.mem_map] at hp
       rcases hp with ⟨kv, _, rfl⟩
       exact amp_not_mem (hno38 kv)
+
+/-! ### the url-encoded body as the form parser reads it -/
+
+theorem utf8Enc_asciiStr (bs : Bytes) (h : ∀ x ∈ bs, x < 128) : utf8Enc (asciiStr bs) = bs := by
+  induction bs with
+  | nil => rfl
+  | cons b t ih =>
+    have hb : b < 128 := h b (by simp)
+    have hlt : (Char.ofNat b.toNat).toNat < 128 := by
+      rw [byteChar_toNat]; exact UInt8.lt_iff_toNat_lt.1 hb
+    rw [asciiStr_cons, Utf8Facts.utf8Enc_cons, Utf8Facts.utf8EncodeChar_ascii _ hlt, byteChar_toNat, UInt8.ofNat_toNat,
+      ih (fun x hx => h x (by simp [hx]))]
+    rfl
+
+theorem mem_joinWith {sep x : UInt8} : ∀ {ps : List Bytes}, x ∈ joinWith sep ps → x = sep ∨ ∃ p ∈ ps, x ∈ p
+  | [], h => by simp [joinWith] at h
+  | [p], h => Or.inr ⟨p, by simp, by simpa [joinWith] using h⟩
+  | p :: q :: t, h => by
+    simp only [joinWith, List.mem_append, List.mem_cons] at h
+    rcases h with h | rfl | h
+    · exact Or.inr ⟨p, by simp, h⟩
+    · exact Or.inl rfl
+    · rcases mem_joinWith (ps := q :: t) h with h | ⟨r, hr, hx⟩
+      · exact Or.inl h
+      · exact Or.inr ⟨r, by simp [hr], hx⟩
+
+theorem urlencode_ascii {safe : Bytes} (hs : SafeOk safe) (items : List (Str × Str)) :
+    ∀ x ∈ urlencode safe items, x < 128 := by
+  intro x hx
+  unfold urlencode at hx
+  rcases mem_joinWith hx with rfl | ⟨p, hp, hxp⟩
+  · decide
+  · rcases List.mem_map.1 hp with ⟨kv, _, rfl⟩
+    simp only [List.mem_append, List.mem_cons] at hxp
+    rcases hxp with h | rfl | h
+    · exact (quotePlus_bytes hs _ x h).2.2
+    · decide
+    · exact (quotePlus_bytes hs _ x h).2.2
+
+/-- `_parse_urlencoded` (no limit) applied to what `_urlencode` writes returns the items -/
+theorem parseUrlencoded_urlencode {safe : Bytes} (hs : SafeOk safe) (items : List (Str × Str))
+    (cl : Option Nat) (sched : List Nat) :
+    parseUrlencoded none cl sched (urlencode safe items) = .ok items := by
+  have hdec : utf8Dec? (urlencode safe items) = some (asciiStr (urlencode safe items)) := by
+    have := utf8Enc_asciiStr _ (urlencode_ascii hs items)
+    rw [← this, utf8Dec_utf8Enc, this]
+  simp only [parseUrlencoded, urlencodedRead, hdec, parseQsl_urlencode_lemma hs items]
 
 end Wz.Urlencode
